@@ -465,3 +465,95 @@ def umx_stress_set(rng):
             out.append(("umx-osz%x-v%d.umx" % (v, ver), umx_package(music, typ, version=ver, objsize=v)))
             out.append(("umx-nof%x-v%d.umx" % (v, ver), umx_package(music, typ, version=ver, name_offset=max(36, v) & 0x7fffffff)))
     return out
+
+
+# --------------------------------------------------------------------------
+# Modules that store or reach a restart position on pattern-less / marker orders, to be PLAYED through their end twice
+# (tools/checks/c02.py, harness/c02_play.c): XM restart field, MOD restart byte, IT / S3M order markers and Bxx jumps.
+# --------------------------------------------------------------------------
+
+def tiny_xm(orders, restart, npat=1, rows=4, channels=2, songlen=None, fx_last=None):
+    songlen = len(orders) if songlen is None else songlen
+    hdr = b"Extended Module: " + b"restart".ljust(20, b" ") + b"\x1a" + b"c02_gens".ljust(20, b" ") + struct.pack("<H", 0x0104)
+    hdr += struct.pack("<IHHHHHHHH", 276, songlen, restart & 0xffff, channels, npat, 0, 1, 6, 125)
+    hdr += bytes(orders).ljust(256, b"\0")
+    pats = b""
+    for _ in range(npat):
+        if fx_last is None:
+            pats += struct.pack("<IBHH", 9, 0, rows, 0)
+        else:
+            data = bytearray()
+            for r in range(rows):
+                for ch in range(channels):
+                    if r == rows - 1 and ch == 0:
+                        data += bytes([0x80 | 0x08 | 0x10, fx_last[0], fx_last[1]])
+                    else:
+                        data.append(0x80)
+            pats += struct.pack("<IBHH", 9, 0, rows, len(data)) + bytes(data)
+    return hdr + pats
+
+
+def tiny_mod(orders, restart, songlen=None, fx_last=None):
+    songlen = len(orders) if songlen is None else songlen
+    npat = max(orders) + 1
+    out = bytearray(b"restart".ljust(20, b"\0"))
+    for _ in range(31):
+        out += bytes(22) + struct.pack(">HBBHH", 0, 0, 0, 0, 1)
+    out += bytes([songlen & 0xff, restart & 0xff]) + bytes(orders).ljust(128, b"\0") + b"M.K."
+    for p in range(npat):
+        pat = bytearray(1024)
+        if fx_last is not None:
+            pat[63 * 16 + 2] = fx_last[0] & 0x0f
+            pat[63 * 16 + 3] = fx_last[1]
+        out += pat
+    return bytes(out)
+
+
+def tiny_s3m(orders, npat=1, fx_last=None, channels=4):
+    ordnum = len(orders) + (len(orders) & 1)
+    ords = bytes(orders).ljust(ordnum, b"\xff")
+    hdr = bytearray(b"restart".ljust(28, b"\0") + b"\x1a\x10\0\0")
+    hdr += struct.pack("<HHHHHH", ordnum, 0, npat, 0, 0x1320, 2) + b"SCRM" + bytes([64, 6, 125, 0x30, 0, 0]) + bytes(8) + struct.pack("<H", 0)
+    hdr += bytes([i if i < channels else 255 for i in range(32)])
+    hdr += ords
+    base = len(hdr) + 2 * npat
+    base += -base % 16
+    pats = b""
+    ptrs = []
+    for p in range(npat):
+        data = bytearray()
+        for r in range(64):
+            if fx_last is not None and r == 63:
+                data += bytes([0x80 | 0, fx_last[0], fx_last[1]])
+            data.append(0)
+        blk = struct.pack("<H", len(data) + 2) + bytes(data)
+        blk += bytes(-len(blk) % 16)
+        ptrs.append((base + len(pats)) // 16)
+        pats += blk
+    hdr += b"".join(struct.pack("<H", x) for x in ptrs)
+    hdr += bytes(base - len(hdr))
+    return bytes(hdr) + pats
+
+
+def restart_play_set():
+    """(name, bytes): modules whose restart position / jump targets / order tails are pattern-less or marker orders"""
+    out = []
+    for oi, orders in enumerate(([0, 0x40], [0, 0x40, 0x41, 0x42], [0x40, 0], [0, 0, 0x40], [0, 0x40, 0, 0x40], [0x40, 0x41, 0])):
+        for rst in sorted({0, 1, 2, 3, len(orders) - 1, len(orders), len(orders) + 1, 255, 0xffff}):
+            out.append(("restart-o%d-r%d.xm" % (oi, rst), tiny_xm(orders, rst)))
+        for tgt in (0, 1, len(orders) - 1, len(orders), 0x7f, 0xff):
+            out.append(("jump-o%d-b%02x.xm" % (oi, tgt), tiny_xm(orders, 0, fx_last=(0x0b, tgt))))
+    for oi, orders in enumerate(([0], [0, 1, 0], [1, 0], [0, 0, 0, 1])):
+        for rst in (0, 1, 2, 3, 4, 0x40, 0x78, 0x7e, 0x7f, 0x80, 0xff):
+            for sl in sorted({len(orders), 1, 128}):
+                out.append(("restart-o%d-r%02x-l%d.mod" % (oi, rst, sl), tiny_mod(orders, rst, songlen=sl)))
+        for tgt in (0, 1, len(orders), 0x7f, 0xff):
+            out.append(("jump-o%d-b%02x.mod" % (oi, tgt), tiny_mod(orders, 0, fx_last=(0x0b, tgt))))
+    marker_orders = ([0, 254, 255], [0, 255, 0], [254, 0, 255], [0, 200, 255], [0, 254, 254, 0, 255], [0, 200, 201], [255, 0], [254, 254, 0])
+    for oi, orders in enumerate(marker_orders):
+        for tgt in (None, 0, 1, 2, 3, len(orders), 0x7f, 0xfe, 0xff):
+            rows = [[], [], [], [(0, 2, tgt)] if tgt is not None else []]
+            out.append(("markers-o%d-%s.it" % (oi, "none" if tgt is None else "b%02x" % tgt), tiny_it(rows, orders=tuple(orders))))
+            out.append(("markers-o%d-%s.s3m" % (oi, "none" if tgt is None else "b%02x" % tgt),
+                        tiny_s3m(orders, fx_last=None if tgt is None else (2, tgt))))
+    return out
